@@ -112,12 +112,13 @@ Proof.
   assert (Hfresh : ~ In (next s) (cancelled (log s))).
   { pose proof (fresh_zero limit s HI) as Hf. rewrite cnt_In. lia. }
   assert (Hnoop : LogOK (emit ENoop s)) by (apply logok_emit; auto; intros; discriminate).
-  destruct it as [[o|sc|sc f]|j0 [v| |]|j0 r0]; cbn [step].
+  destruct it as [[o|sc|sc f]|j0 [v| | |]|j0 r0]; cbn [step].
   1: destruct o as [|f|i| |i|j1 ok v]; cbn [step_sop].
   all: repeat match goal with |- context [if ?b then _ else _] => destruct b end; cbn [fst];
     try solve [apply logok_acquire; assumption | apply logok_release; assumption
               | apply logok_fn_done; assumption | exact Hnoop].
   - apply logok_emit; try (intros; discriminate). eapply logok_same; [|exact HL]. reflexivity.
+  - eapply logok_same; [|exact HL]. reflexivity.
   - eapply logok_same; [|exact HL]. reflexivity.
   - apply logok_emit; try (intros; discriminate); auto. intros j r1 [= <- <-]. eapply Hres. reflexivity.
 Qed.
